@@ -540,6 +540,22 @@ def eval_runner(prop, cfg, tier, seed, wdir, mpv, cov, violations, broken, notes
     if indom:
         broken.append({'what': 'correspondence: the Lean model and the implementation disagree on %d in-domain case(s) (of %d disagreements)' % (len(indom), nmism),
                        'examples': [case_example(m) for m in indom[:5]]})
+        if cfg.get('model_is_spec'):
+            # the property fixes the answer on in-domain inputs and the theorems say the model gives it: an input on which the
+            # implementation answers otherwise is a concrete failing input, reported with its replay (one per query shape)
+            seen = set()
+            for m in indom:
+                ex = case_example(m)
+                q = ex.get('query') or json.dumps(ex.get('case'))[:120]
+                shape = re.sub(r'[0-9]+', '0', re.sub(r'"[^"]*"', '""', q))[:80]
+                if shape in seen:
+                    continue
+                seen.add(shape)
+                violations.append({'kind': 'model-disagreement', 'key': 'disagreement:' + shape, 'query': q, 'query_hex': ex.get('query_hex'), 'data': ex.get('data'),
+                                   'expected': ex.get('model'), 'got': ex.get('impl'), 'extra': {k: v for k, v in ex.items() if k in ('case', 'schema_tree')},
+                                   'why': 'on this input, which is inside what the property quantifies over, the implementation answers differently from the model, and the model is proved to answer as the property demands (the theorems listed in the evidence file)'})
+                if len(seen) >= 6:
+                    break
     elif mism:
         notes.append({'what': 'model/implementation differences outside the property domain (logged, not enforced)', 'count': nmism,
                       'examples': [case_example(m) for m in mism[:3]]})
